@@ -45,6 +45,7 @@ TEnd ==
   /\ More /\ Ev.e = "end"
   /\ Ev.saddle_defect <= Slack                     \* every saddle point / minimiser is a fixed point of the update
   /\ Ev.final_dist <= T.final_tol                  \* converged to the minimiser within the budget
+  /\ Ev.iter <= T.max_iter                         \* driven by done(), the method performs at most max_iter updates
   /\ Ev.in_place = 1                               \* caller's arrays updated in place
   /\ Ev.caller_prod <= Slack                       \* array-valued steps handed in by the caller: tau_i * sigma_j unchanged (still an admissible pair)
   /\ l' = l + 1 /\ UNCHANGED <<tid, iter, prev>>
